@@ -81,7 +81,7 @@ func instantiate(t *Term, cands map[Sort][]*Term, arrIdx map[string][]*Term) *Te
 		tuples = append(tuples, nil)
 		for _, b := range t.Binders {
 			cs := cands[b.Sort]
-			if len(t.Binders) == 1 && b.Sort == SInt && instKnown != nil {
+			if len(t.Binders) == 1 && b.Sort == SInt && instKnown != nil && os.Getenv("VGO_NO_MATCH") == "" {
 				cs = append(append([]*Term(nil), cs...), selectMatchCands(instKnown, t.Args[0], b.Op)...)
 			}
 			if len(cs) == 0 {
@@ -296,6 +296,7 @@ func prepareQuery(q *Query) {
 	instKnown = collectSelectEqs(q.Hyps)
 	defer func() { instKnown = nil }()
 	var inst []*Term
+	harvested := 0
 	for round := 0; round < 3; round++ {
 		arrIdx := map[string][]*Term{}
 		seen := map[string]bool{}
@@ -331,8 +332,57 @@ func prepareQuery(q *Query) {
 			}
 		}
 		inst = next
+		// indices at which the new instances read arrays and that are offsets of a skolem constant (e.g. "k - n"
+		// after a block move) are where the remaining quantified facts are needed next
+		if len(sks) > 0 && len(sks) <= 2 && harvested < 4 && os.Getenv("VGO_NO_HARVEST") == "" {
+			skNames := map[string]bool{}
+			for _, sk := range sks {
+				skNames[sk.Op] = true
+			}
+			var harvest func(t *Term)
+			harvest = func(t *Term) {
+				if t.Kind == KQuant {
+					return
+				}
+				if t.Kind == KApp && t.Op == "select" && len(t.Args) == 2 && t.Args[1].Sort == SInt {
+					idx := t.Args[1]
+					// "k - n" with a symbolic n: the shape a block move (copy with an offset) produces
+					if idx.Kind == KApp && idx.Op == "-" && len(idx.Args) == 2 && idx.Args[1].Kind != KLit && mentionsVar(idx.Args[0], skNames) && len(idx.String()) < 200 {
+						fv := map[string]*Term{}
+						freeBoundVars(idx, map[string]bool{}, fv)
+						if len(fv) == 0 && !seenC[idx.String()] && harvested < 4 {
+							harvested++
+							seenC[idx.String()] = true
+							cands[SInt] = append(cands[SInt], idx)
+						}
+					}
+				}
+				if t.Kind == KApp {
+					for _, a := range t.Args {
+						harvest(a)
+					}
+				}
+			}
+			for _, h := range inst {
+				harvest(h)
+			}
+		}
 	}
 	q.Hyps = append(q.Hyps, inst...)
+}
+
+func mentionsVar(t *Term, names map[string]bool) bool {
+	switch t.Kind {
+	case KVar:
+		return names[t.Op]
+	case KApp:
+		for _, a := range t.Args {
+			if mentionsVar(a, names) {
+				return true
+			}
+		}
+	}
+	return false
 }
 
 // collectBounds finds ground terms that bound a quantified variable from above: (< q t), (<= q t).
